@@ -21,6 +21,18 @@ CHECKS = {
  "C04": dict(cat="model_checking", design="3/C04", technique="TLA+ transcription of the diffusion model (Diffusion.tla: profile builders, setup, boundary conditions, fluxes, both iterators, clipping, solver loop) evaluated by TLC on each configuration with the conservation/boundary clauses checked on every step; real models bound by equality of the recorded run",
              text="Balance (telescoping with boundary fluxes), closed-system invariance across steps and across solve calls, fixed Dirichlet nodes and bounds are evaluated by TLC on its own exact run of every configuration; the real SinglePhaseModel driven by scripted thermodynamics must reproduce the predicted record (times and profiles) step by step, which binds the code to the checked transcription.",
              note="exact domain is coarse and dyadic (k/16 compositions, <=4 Euler steps or one RK4 step, <=6 nodes) because of TLC's 32-bit integers; homogenization model covered by conservation traces only"),
+ "C01": dict(cat="model_checking", design="3/C01", technique="TLA+ trace acceptor (KWN_Trace.tla over KWN.tla) validating every accepted step of real PrecipitateModel runs: mass balance and precipitate content as three-way comparisons of logged moment sums",
+             text="Every step of every run in the suite (scripted self-consistent thermodynamics; 1-2 phases, site types, volume ratios, iterators, solve-call splits, ramps, dissolution, re-meshing, faults) is an event whose mass-balance and weighted-third-moment comparisons the specification must accept; the comparison operands are computed by an observer from the recorded distribution and the table in force, independently of the code path that produced the recorded values.",
+             note="real-valued identities enter the specification as lt/eq/gt under the fixed tolerance table (rtol 1e-8, one particle per class); exact arithmetic in TLC is not possible for these quantities (32-bit integers); scripted thermodynamics only"),
+ "C02": dict(cat="model_checking", design="3/C02", technique="TLA+ trace acceptor (KWN_Trace.tla) on per-step comparisons of reported density/mean radius/fraction with moments of the recorded size distribution, and the density law between consecutive steps",
+             text="Reported statistics are compared with M0, M1/M0 and r*v*M3 of the distribution recorded at that step, and M0 of each new distribution with M0 of the stored one plus nucRate*dt; the specification accepts only eq (resp. lt/eq), including on steps where the grid is extended or re-meshed.",
+             note="truncation allowance of one particle per class; density law on Euler runs only; scripted thermodynamics"),
+ "C03": dict(cat="fault_enumeration", design="3/C03", technique="TLA+ trace acceptor (KWN_Trace.tla) on well-formedness observations of every step, over a configuration suite and an exhaustive enumeration of backend-failure schedules injected through a scripted thermodynamics object",
+             text="All schedules of <=2 failed driving-force equilibria among the first 8-14 backend calls x both iterators are executed on the real model, plus the configuration suite (fixed/adaptive grids with recording, site types, ramps out of the two-phase region, dissolution, repeated solve calls); each step must keep the 16 histories aligned, finite, in range, and each call must end at its requested time.",
+             note="faults injected at the documented failure value (None, None) of getDrivingForce; other backend failure modes (multicomponent growth) belong to the multicomponent suite"),
+ "C13": dict(cat="model_checking", design="3/C13", technique="TLA+ model of the lookup-refresh rule (MC_KWN.tla) checked by TLC over all temperature paths; KWN_Trace.tla binds real non-isothermal runs to the same Refresh operator via the temperatures at which the scripted backend is asked to build tables",
+             text="LookupFresh is an invariant of the refresh rule over every heating/cooling/hold/reversal path on the lattice; on real runs the acceptor keeps the table stamp, predicts when a rebuild is due with the same operator, and requires the recorded temperature to equal the schedule, the table to be within maxTempChange, and the accumulator to match.",
+             note="integer milli-kelvin temperatures; binary systems (the multicomponent path has no lookup table)"),
 }
 
 NOT_APPLICABLE = {
